@@ -867,12 +867,12 @@ macro "postv_auto" ih:ident : tactic => `(tactic| repeat' (first
       (VLF_assocInsert (by assumption) (by assumption)))
   | exact PostV.pure (VL_selectObject (by assumption) (KeysV_assocInsert (by assumption) (by assumption))
       (VLF_assocInsert (by assumption) (by assumption)))
-  | (refine PostV.bind PostV.get fun _ _ => ?_)
-  | (refine PostV.bind PostV.currType fun _ _ => ?_)
-  | (refine PostV.bind PostV.nextType fun _ _ => ?_)
-  | (refine PostV.bind PostV.currValue fun _ _ => ?_)
-  | (refine PostV.bind PostV.advance fun _ _ => ?_)
-  | (refine PostV.bind PostV.advance2 fun _ _ => ?_)
+  | (with_reducible refine PostV.bind PostV.get fun _ _ => ?_)
+  | (with_reducible refine PostV.bind PostV.currType fun _ _ => ?_)
+  | (with_reducible refine PostV.bind PostV.nextType fun _ _ => ?_)
+  | (with_reducible refine PostV.bind PostV.currValue fun _ _ => ?_)
+  | (with_reducible refine PostV.bind PostV.advance fun _ _ => ?_)
+  | (with_reducible refine PostV.bind PostV.advance2 fun _ _ => ?_)
   | (refine PostV.ite (fun _ => ?_) (fun _ => ?_))
   | split
   | (refine PostV.pure ?_; vl_close)))
@@ -965,5 +965,91 @@ theorem pih : ∀ fuel, PIH fuel
 
 end PV
 
+/-! ## every compiled expression has valid literals -/
+
+open Parser ParserLits PV in
+/-- **the literals (and multi-select keys) of a compiled expression are valid UTF-8, for ANY expression bytes**: the
+    lexer rejects ill-formed UTF-8, the un-escaping routines preserve validity, `encoding/json` replaces what is left -/
+theorem parse_validLits {expr : Bytes} {n : INode} (h : Parser.parse expr = .ok n) : n.ValidLits = true := by
+  unfold Parser.parse at h
+  have htok : ∀ t ∈ (lexAll expr).1, TokV t := lexAllAux_tokV _ _ _ _ rfl
+  generalize lexAll expr = p at h htok
+  obtain ⟨ts, e⟩ := p
+  simp only [] at h htok
+  split at h
+  · cases h
+  · next st hinit =>
+    have hst : StV st := by
+      split at hinit
+      · next t0 t1 rest =>
+        cases hinit
+        exact ⟨htok t0 (by simp), htok t1 (by simp), fun x hx => htok x (by simp [hx])⟩
+      · next t0 =>
+        split at hinit
+        · cases hinit
+        · cases hinit
+          exact ⟨htok t0 (by simp), tokV_end, fun x hx => by cases hx⟩
+      · split at hinit
+        · cases hinit
+        · cases hinit
+          exact ⟨tokV_end, tokV_end, fun x hx => by cases hx⟩
+    split at h
+    · next n' s' hr =>
+      cases h
+      have hp : PostV VL (do
+          let node ← expression (fuelFor ts.length) 1
+          if (← currType) != .end then Parser.fail .unexpectedToken
+          return node : PM INode) := by
+        refine PostV.bind ((pih _).expression _) fun node hn => ?_
+        refine PostV.bind PostV.currType fun _ _ => ?_
+        refine PostV.ite (fun _ => ?_) (fun _ => ?_)
+        · exact PostV.fail_bind
+        · exact PostV.pure hn
+      exact (hp st n s' hst hr).2
+    · cases h
+
+theorem compile_validLits {expr : Bytes} {n : INode} (h : compile expr = .ok n) : n.ValidLits = true :=
+  parse_validLits h
+
+/-- **C11, valid in ⇒ valid out, with no hypothesis on the expression**: whatever bytes the expression consists of,
+    if every string in the data (object keys included) is valid UTF-8, so is every string in the result. -/
+theorem search_valid_any {e : Bytes} {d r : Val} (hd : d.Valid = true) (h : search e d = .ok r) : r.Valid = true :=
+  search_valid hd (fun _ hp => parse_validLits hp) h
+
+/-- … and through a compiled expression -/
+theorem compiled_search_valid {e : Bytes} {n : INode} {d r : Val} (hc : compile e = .ok n) (hd : d.Valid = true)
+    (h : evaluate n d = .ok r) : r.Valid = true :=
+  evaluate_valid hd (compile_validLits hc) h
+
+/-! ### examples -/
+
+/-- ``split(@, 'ö')`` compiles to the node used in `Jmes.C11V.splitOnOe` -/
+example : (match compile [0x73, 0x70, 0x6C, 0x69, 0x74, 0x28, 0x40, 0x2C, 0x20, 0x27, 0xC3, 0xB6, 0x27, 0x29] with
+    | .ok (.call .split [.current, .lit (.str [0xC3, 0xB6])]) => true
+    | _ => false) = true := by decide +kernel
+example : ∀ n, compile [0x73, 0x70, 0x6C, 0x69, 0x74, 0x28, 0x40, 0x2C, 0x20, 0x27, 0xC3, 0xB6, 0x27, 0x29] = .ok n →
+    n.ValidLits = true := fun _ h => compile_validLits h
+example : ∀ r, search [0x73, 0x70, 0x6C, 0x69, 0x74, 0x28, 0x40, 0x2C, 0x20, 0x27, 0xC3, 0xB6, 0x27, 0x29]
+    (.str helloWorldB) = .ok r → r.Valid = true := fun _ h => search_valid_any (by decide) h
+/-- an expression with an ill-formed byte inside a raw string literal (`'\xFF'`) does not compile: there is no literal
+    to worry about -/
+example : (match compile [0x27, 0xFF, 0x27] with | .error _ => true | .ok _ => false) = true := by decide +kernel
+/-- the JSON literal `` `"\ud800"` `` (a lone surrogate escape) compiles to the literal U+FFFD -/
+example : (match compile [0x60, 0x22, 0x5C, 0x75, 0x64, 0x38, 0x30, 0x30, 0x22, 0x60] with
+    | .ok (.lit (.str [0xEF, 0xBF, 0xBD])) => true
+    | _ => false) = true := by decide +kernel
+/-- the hypothesis on the data is still needed: `@` on an invalid string returns it -/
+example : (match search [0x40] (.str [0xFF]) with | .ok (.str [0xFF]) => true | _ => false) = true := by decide +kernel
+
 end C11V
 end Jmes
+
+#print axioms Jmes.C11V.valid_split_ascii
+#print axioms Jmes.C11V.parseStringLiteral_valid
+#print axioms Jmes.C11V.parseQuotedIdentifier_valid
+#print axioms Jmes.C11V.Json.decode_valid
+#print axioms Jmes.C11V.tokShape_valid
+#print axioms Jmes.C11V.lexAll_valid
+#print axioms Jmes.C11V.parse_validLits
+#print axioms Jmes.C11V.search_valid_any
+#print axioms Jmes.C11V.compiled_search_valid
